@@ -20,7 +20,7 @@ import shutil
 import tempfile
 
 from cogent3.app.composable import NotCompleted, define_app
-from cogent3.app.typing import UnalignedSeqsType
+from cogent3.app.typing import SerialisableType, UnalignedSeqsType
 
 PID = "C14"
 LEVEL = "model_checking"
@@ -37,7 +37,7 @@ ASSUMPTIONS = [
     "ids use the store's own identifier function get_unique_id; inputs are files <id>.fasta",
 ]
 
-OUTCOMES = ["ok", "raise", "none", "nc", "wrong", "false"]
+OUTCOMES = ["ok", "raise", "none", "nc", "ncsrc", "wrong", "false"]  # ncsrc: a NotCompleted that names some other source
 SEQS = {"a": "ACGT", "ba": "GGCC", "c": "TTAA", "fasta1": "CAGT", "a.v2": "CCAT"}
 
 
@@ -67,6 +67,9 @@ def _behave(app, seqs, outcomes):
         return None
     if o == "nc":
         return NotCompleted("FAIL", app, f"declined {name}", source=seqs)
+    if o == "ncsrc":
+        # the failing step reports a source of its own (data read from elsewhere): the record still belongs to this input
+        return NotCompleted("FAIL", app, f"declined {name}", source="elsewhere/zz.fasta")
     if o == "wrong":
         return {"not": "sequences"}
     if o == "false":
@@ -90,6 +93,22 @@ class vf_step2:
 
     def main(self, seqs: UnalignedSeqsType) -> UnalignedSeqsType:
         return _behave(self, seqs, self.outcomes)
+
+
+@define_app
+class vf_tab:
+    """a step whose legitimate result can be falsy: a table with one row per sequence that has a given first base"""
+
+    def __init__(self, base: str):
+        self.base = base
+
+    def main(self, seqs: UnalignedSeqsType) -> SerialisableType:
+        from cogent3 import make_table
+
+        rows = [[s.name, len(s)] for s in seqs.seqs if str(s).startswith(self.base)]
+        t = make_table(header=["name", "length"], data=rows)
+        t.source = seqs.info.source
+        return t
 
 
 # ----------------------------------------------------------------------------- virtual executor
@@ -246,7 +265,7 @@ def expected_record(i, vectors):
             return ("nc", {step}, f"boom {i}")
         if o == "none":
             return ("nc", {step}, "None")
-        if o == "nc":
+        if o in ("nc", "ncsrc"):
             return ("nc", {step}, f"declined {i}")
         return ("nc", {step, nxt}, "")
     return ("completed", None, None)
@@ -356,7 +375,9 @@ def judge(ids, vectors, store_kind, sched, res, refs):
             if not json.loads(text)["not_completed_construction"]["args"][2]:
                 fails.append((f"not-completed record has an empty message [{cls}; outcome {o}]", {"id": i}))
             # a wrong-typed value carries no source information for the step that receives it
-            if c["source"] != f"{i}.fasta" and not (o in ("wrong", "false") and c["source"] is None and c["origin"] != next(iter(sorted(origins)))):
+            if o == "ncsrc":
+                pass  # the record names the source the failing step gave
+            elif c["source"] != f"{i}.fasta" and not (o in ("wrong", "false") and c["source"] is None and c["origin"] != next(iter(sorted(origins)))):
                 fails.append((f"not-completed record does not name its source [{cls}; outcome {o}]", {"id": i, "source": c["source"], "want": f"{i}.fasta"}))
     extra = sorted(k for k in recs if k[1] not in ids)
     if extra:
@@ -428,6 +449,50 @@ def explore(spec, acc):
                     {"distinct_final_stores": len(finals), "schedules_by_store": groups[:4]},
                 )
     acc.sample({"ids": ids, "steps": nsteps, "store": store_kind, "schedules": [list(s) if s else "serial" for s in scheds][:8]}, f"{store_kind}-{len(ids)}-{nsteps}")
+
+
+def check_falsy(acc):
+    """a successful result that is falsy (a table without rows) is a completed record like any other"""
+    from cogent3 import get_app
+    from cogent3.app.sqlite_data_store import DataStoreSqlite
+    from cogent3.util.deserialise import deserialise_object
+
+    base = tempfile.gettempdir()
+    for first_base in "AGTC":
+        for serial in (True, False):
+            work = tempfile.mkdtemp(prefix="c14f-", dir=base)
+            ids = ["a", "ba", "c"]
+            case = {"falsy": True, "ids": ids, "first_base": first_base, "serial": serial}
+            acc.case(case)
+            try:
+                members = make_inputs(work, ids)
+                out = DataStoreSqlite(os.path.join(work, "out.sqlitedb"), mode="w")
+                app = get_app("load_unaligned", format="fasta", moltype="dna") + vf_tab(first_base) + get_app("write_db", data_store=out)
+                if serial:
+                    app.apply_to(members, logger=False, show_progress=False)
+                else:
+                    with patched_pool((2, 0, 1)):
+                        app.apply_to(members, parallel=True, par_kw={"max_workers": 2}, logger=False, show_progress=False)
+                done = sorted(str(m.unique_id) for m in out.completed)
+                nc = sorted(str(m.unique_id) for m in out.not_completed)
+                want_rows = {i: sum(1 for q in (SEQS[i], SEQS[i][::-1]) if q.startswith(first_base)) for i in ids}
+                acc.outcome(("falsy", tuple(want_rows.values())))
+                if done != sorted(ids) or nc:
+                    empty = [i for i in ids if want_rows[i] == 0]
+                    acc.fail("an input whose result is a table without rows is not stored as a completed record [sqlite store, write_db]", case,
+                             {"completed": done, "not_completed": nc, "inputs with an empty table": empty})
+                else:
+                    reader = get_app("load_db")
+                    for m in out.completed:
+                        t = reader(m)
+                        if t.shape[0] != want_rows[str(m.unique_id)]:
+                            acc.fail("stored table differs from the step's result [sqlite store, write_db]", case, {"id": str(m.unique_id), "rows": int(t.shape[0])})
+                out.close()
+            except Exception as e:  # noqa: BLE001
+                acc.fail(f"composition with a falsy result raised {type(e).__name__} [sqlite store, write_db]", case, {"error": str(e)[:200]})
+            finally:
+                shutil.rmtree(work, ignore_errors=True)
+    acc.sample({"falsy_results": True, "writer": "write_db", "inputs": ["a", "ba", "c"]}, "falsy")
 
 
 def check_passthrough(acc):
@@ -511,7 +576,7 @@ def validate_real_pool(spec, acc):
 
 def shards(tier, seed):
     b = bounds(tier)
-    out = [{"part": "passthrough"}]
+    out = [{"part": "passthrough"}, {"part": "falsy"}]
     if tier == "thorough":
         for store in b["stores"]:
             out.append({"part": "realpool", "ids": ["ba", "a", "c"], "vector": ["raise", "ok", "ok"], "store": store,
@@ -531,7 +596,9 @@ def shards(tier, seed):
 
 
 def run_shard(spec, acc):
-    if spec["part"] == "passthrough":
+    if spec["part"] == "falsy":
+        check_falsy(acc)
+    elif spec["part"] == "passthrough":
         check_passthrough(acc)
     elif spec["part"] == "realpool":
         # pool workers are daemonic and may not start a process pool themselves: run the pass in a child interpreter
@@ -566,6 +633,10 @@ def replay(case):
     if case.get("validate_real_pool"):
         acc = Acc()
         validate_real_pool({"ids": case["ids"], "vector": case["vector"], "store": case["store"], "delays": [case["delays"]]}, acc)
+        return [(s, r["cases"][0]["detail"]) for s, r in acc.failures.items()]
+    if "falsy" in case:
+        acc = Acc()
+        check_falsy(acc)
         return [(s, r["cases"][0]["detail"]) for s, r in acc.failures.items()]
     if "passthrough" in case:
         acc = Acc()
